@@ -584,6 +584,19 @@ func init() {
 		t := fn.Signature.Results().At(0).Type().(*types.Pointer).Elem()
 		return Ptr{Obj: m.newObject(t, m.zero(t), "timer")}
 	})
+	// time.NewTimer(d): a Timer whose channel C may deliver at any moment (same model as time.After)
+	reg("time.NewTimer", func(m *Machine, fn *ssa.Function, a []Value) Value {
+		t := fn.Signature.Results().At(0).Type().(*types.Pointer).Elem()
+		st := t.Underlying().(*types.Struct)
+		v := m.zero(t).(*StructV)
+		for i := 0; i < st.NumFields(); i++ {
+			if st.Field(i).Name() == "C" {
+				v.F[i] = m.newTimer(st.Field(i).Type().Underlying().(*types.Chan).Elem())
+			}
+		}
+		return Ptr{Obj: m.newObject(t, v, "timer")}
+	})
+	reg("(*time.Timer).Reset", func(m *Machine, fn *ssa.Function, a []Value) Value { return m.S.False })
 	reg("(*time.Timer).Stop", func(m *Machine, fn *ssa.Function, a []Value) Value { return m.S.False })
 	reg("time.Sleep", func(m *Machine, fn *ssa.Function, a []Value) Value { m.Yield(nil, "Sleep"); return nil })
 
